@@ -91,7 +91,7 @@ def ulist_section(ctx, M):
             if key is None or key not in M['inline']:
                 raise SelectorError('ulist.%s not found' % op)
             fdef = M['inline'][key][1]
-            ex = Exec(mu, [th], inline=M['inline'], name='ulist.%s.%s' % (op, argkind))
+            ex = Exec(mu, [th], inline=M['inline'], name='ulist.%s.%s' % (op.strip('_'), argkind))
             self_ = th.sym_list('u', cls='ulist', tag=CLS)
             U = self_.pl
             st = State(); st.pc += [NODUP(u)]           # class invariant of ulist: established by every constructor path (contract)
@@ -730,6 +730,26 @@ def relabel_contract(th):
     return h
 
 
+def inherit_replay(ctx, depth=4):
+    """obligations raised inside the executor (frame, call-site preconditions, loop invariants) take the witness terms and the
+    replay recipe of the section they belong to (same leading name components)"""
+    by_prefix = {}
+    for ob in ctx.obligations:
+        if ob.witness and ob.meta.get('replay') is not None:
+            for d in (depth, depth - 1):
+                by_prefix.setdefault('.'.join(ob.name.split('.')[:d]), ob)
+    for ob in ctx.obligations:
+        if ob.meta.get('replay') is None:
+            for d in (depth, depth - 1):
+                src = by_prefix.get('.'.join(ob.name.split('.')[:d]))
+                if src is not None:
+                    ob.witness = dict(src.witness)
+                    ob.meta['replay'] = src.meta['replay']
+                    if src.meta.get('search_hints') is not None:
+                        ob.meta['search_hints'] = src.meta['search_hints']
+                    break
+
+
 def rp(kind, *extra):
     def mk(model):
         d = dict(kind=kind, extra=list(extra))
@@ -746,3 +766,4 @@ def build(ctx):
     for cls in ('dictattr', 'Dict'):
         dictattr_section(ctx, M, cls)
     ctx.guarded('Dict.__call__', lambda: call_section(ctx, M))
+    inherit_replay(ctx)
